@@ -180,6 +180,25 @@ class Prop(PropBase):
                         if not (res[0] == 'ok' and pv.pv_equal(res[1], src)):
                             out.append(fail('single-expr-keeps-type',
                                             f'{v!r} with {firsts[0]}={src!r} -> {res!r}'))
+            # the rf / ff flag is the first two characters of the spec and nothing more: the rest is the
+            # standard format spec, applied as python's format() does. Oracle: str.format on the same
+            # string with the flags cut off, for plain scalar values without braces of their own.
+            flagged = all(n == f and f in cmap and plain_scalar(cmap[f]) and not G.has_brace(cmap[f])
+                          and '{' not in s and (s[:2] in ('rf', 'ff') or s == '' or s[0] not in 'rf')
+                          for (_, n, s, _), f in zip(fields, firsts))
+            if flagged and fields and any(s[:2] in ('rf', 'ff') and len(s) > 2 for _, _, s, _ in fields):
+                stripped = ''.join(
+                    lit.replace('{', '{{').replace('}', '}}') +
+                    ('' if n is None else '{' + n + ('!' + c if c else '') +
+                     ((':' + (sp[2:] if sp[:2] in ('rf', 'ff') else sp)) if (sp[2:] if sp[:2] in ('rf', 'ff') else sp) else '') + '}')
+                    for lit, n, sp, c in items)
+                try:
+                    want = stripped.format(**{k: pv.to_py(x) for k, x in cmap.items() if plain_scalar(x)})
+                except Exception:
+                    want = None
+                if want is not None and not (res[0] == 'ok' and res[1] == want):
+                    out.append(fail('flag-then-standard-spec',
+                                    f'{v!r} -> {res!r}; with the rf/ff flags cut off str.format gives {want!r}'))
             if len(items) == 1 and len(fields) == 1 and not items[0][0]:
                 lit, name, spec, conv = items[0]
                 if spec == 'ff' and conv is None and name in cmap and not _has_obj(cmap[name]) \
